@@ -1,6 +1,6 @@
 (* C09 — merge loses nothing when inputs agree on names; identity and fold laws. *)
 From Sigtools.Model Require Import Base Bind Roles Algebra Universe.
-From Sigtools.Proofs Require Import SmallModel Basics SweepDefs Bounded MergeNeutral MergeIdem SweepDefs2 SweepDefs3 Bounded3 MergeNeutralL FoldLaw RcValidN.
+From Sigtools.Proofs Require Import SmallModel Basics SweepDefs Bounded MergeNeutral MergeIdem SweepDefs2 SweepDefs3 Bounded3 MergeNeutralL FoldLaw RcValidN MergeExact.
 
 (* apply_params(s, *sort_params(s)) equals s, for all valid signatures *)
 Theorem C09_sort_apply_roundtrip s :
@@ -112,4 +112,16 @@ Print Assumptions C09_merge_fold_law_unconditional_refuted.
 Theorem C09_merge_nested_eq_rc : forall ss : list sigT, all_valid ss -> role_consistent (map params ss) = true -> merge_nested ss = merge ss.
 Proof. exact @RcValidN.merge_nested_eq_rc. Qed.
 Print Assumptions C09_merge_nested_eq_rc.
+
+
+(* ---- exactness of merge for ALL valid name-aligned role-consistent pairs (Proofs/MergeExact.v): the result
+   accepts a non-colliding call iff both inputs do, and merge raises IncompatibleSignatures only when no call
+   is accepted by both ---- *)
+Theorem C09_merge_exact : forall a b : sigT, valid_sig (params a) = true -> valid_sig (params b) = true -> name_aligned (params a) (params b) = true -> role_consistent [params a; params b] = true -> match merge [a; b] with | Ok r => forall c : call, noncolliding c (params r) [params a; params b] = true -> accepts (params r) c = accepts (params a) c && accepts (params b) c | Err e => e = Incompatible /\ (forall c : call, accepts (params a) c && accepts (params b) c = false) end.
+Proof. exact @MergeExact.merge_exact. Qed.
+Print Assumptions C09_merge_exact.
+
+Theorem C09_merge_exact_mk : forall a b : list param, valid_sig a = true -> valid_sig b = true -> name_aligned a b = true -> role_consistent [a; b] = true -> match merge [{| params := a; ret := None; uret := UEmpty; srcs := []; deps := [] |}; {| params := b; ret := None; uret := UEmpty; srcs := []; deps := [] |}] with | Ok r => forall c : call, noncolliding c (params r) [a; b] = true -> accepts (params r) c = accepts a c && accepts b c | Err e => e = Incompatible /\ (forall c : call, accepts a c && accepts b c = false) end.
+Proof. exact @MergeExact.merge_exact_mk. Qed.
+Print Assumptions C09_merge_exact_mk.
 
